@@ -44,7 +44,24 @@ func VerifC02MapOrder() {
 	keys := []string{"b", "a", "c"}[:n]
 	var m any
 	v := []int{nd.IntIn(0, 9), nd.IntIn(0, 9), nd.IntIn(0, 9)}
-	switch nd.Choice(5) {
+	switch nd.Choice(6) {
+	case 5: // integer keys are solver variables, pairwise distinct: either 19-digit keys (2^62..2^63-1,
+		// where neighbouring integers are not distinguishable as float64) or single-digit keys of either
+		// sign; printing keys of arbitrary digit count forks 39 ways per key and does not finish
+		k1, k2, k3 := nd.Int64(), nd.Int64(), nd.Int64()
+		if nd.Choice(2) == 0 {
+			nd.Assume(k1 >= 1<<62 && k2 >= 1<<62 && k3 >= 1<<62)
+		} else {
+			nd.Assume(k1 >= 0 && k1 <= 9 && k2 >= 0 && k2 <= 9 && k3 >= 0 && k3 <= 9)
+		}
+		nd.Assume(k1 != k2)
+		mm := map[int64]any{k1: v[0], k2: v[1]}
+		if n == 3 {
+			nd.Assume(k3 != k1 && k3 != k2)
+			mm[k3] = v[2]
+		}
+		m = mm
+		nd.SymOrderMap(mm)
 	case 4: // interface-keyed map mixing numbers, strings and booleans (as YAML decoding produces)
 		mm := map[any]any{"b": v[0], 2: v[1]}
 		if n == 3 {
@@ -167,4 +184,61 @@ func errOrNil(e SourceError) error {
 		return nil
 	}
 	return e
+}
+
+var c02HistoryTemplates = []string{
+	"{% assign n = n | plus: 1 %}{{ n }}",
+	"{% capture c %}{{ c }}x{% endcapture %}{{ c }}",
+	"{{ v }}{% assign v = 'set' %}{{ v }}",
+	"{% for i in (1..2) %}{% cycle 'a', 'b', 'c' %}{% endfor %}{% assign forloop = 1 %}",
+	"{% for i in (1..4) limit: 2 %}{{ i }}{% endfor %}{% for i in (1..4) offset: continue %}{{ i }}{% endfor %}",
+	"{% if seen %}again{% else %}first{% endif %}{% assign seen = true %}",
+	"{{ a | push: 1 | size }}{{ a | size }}{% assign a = a | concat: a %}{{ a | size }}",
+}
+
+// VerifC02History: the output does not depend on earlier activity. The same bindings map (nil,
+// empty, or populated) is reused for several renders of one template, through different entry
+// points and on the same and on fresh engines; every render gives the same bytes or the same
+// error, and the caller's map is left as it was.
+func VerifC02History() {
+	src := c02HistoryTemplates[nd.Choice(len(c02HistoryTemplates))]
+	var b Bindings
+	want := 0
+	switch nd.Choice(4) {
+	case 0:
+		b = nil
+	case 1:
+		b = Bindings{} // empty, non-nil, reused
+	case 2:
+		b = Bindings{"n": nd.IntIn(0, 3)}
+		want = 1
+	case 3:
+		b = Bindings{"a": []any{1, 2}, "v": "bound", "n": 1.5}
+		want = 3
+	}
+	e := NewEngine()
+	tpl, perr := e.ParseString(src)
+	nd.Assert(perr == nil, "parses")
+	if perr != nil {
+		return
+	}
+	ref, rerr := tpl.RenderString(b)
+	same := func(out string, err SourceError, label string) {
+		nd.Assert((err == nil) == (rerr == nil), label+"-errorness")
+		if err == nil && rerr == nil {
+			nd.Assert(out == ref, label+"-bytes")
+		} else if err != nil && rerr != nil {
+			nd.Assert(err.Error() == rerr.Error(), label+"-same-error")
+		}
+	}
+	out, err := tpl.RenderString(b)
+	same(out, err, "second-render")
+	bs, err := tpl.Render(b)
+	same(string(bs), err, "third-render")
+	out, err = e.ParseAndRenderString(src, b)
+	same(out, err, "same-engine-reparse")
+	out, err = NewEngine().ParseAndRenderString(src, b)
+	same(out, err, "fresh-engine")
+	nd.Assert(len(b) == want, "bindings-map-not-grown")
+	nd.Reach("C02.history")
 }
